@@ -711,7 +711,16 @@ where
             // Nothing bound to a rolled-back fabric may outlive it
             #[cfg(feature = "case-resumption")]
             if let Some(fab_idx) = removed_fabric {
-                state.purge_resumption_for_fabric(fab_idx, &self.kv)?;
+                if let Err(e) = state.purge_resumption_for_fabric(fab_idx, &self.kv) {
+                    // The records are gone from memory already. Failing to store the purged
+                    // cache must not end the timeout checks (and with them
+                    // `InteractionModel::run`): let the background task store it later.
+                    error!(
+                        "Storing the purged resumption cache failed ({:?}); will be retried",
+                        e
+                    );
+                    self.matter.transport().notify_resumption_dirty();
+                }
             }
 
             // Close the commissioning window on timeout
